@@ -88,6 +88,10 @@ void Exec::op_solve(Client &c) {
 	signature("solve:" + how + ":" + life_before + ":" + status_name(so.status) + strf(":rv%d:", so.rv != 0) + ladder.substr(0, 80));
 
 	judge_solve(*o, so, how, interrupted, faulted);
+	// C02 through the other channel: whenever QSget_infeas_array succeeds after a solve - whatever status the solve ended with - what it hands out is a certificate
+	if (!stop && !o->broken && !o->m.rows.empty()) { int mm = (int)o->m.rows.size(); QArr gy(mm); int r_y = mpq_QSget_infeas_array(o->p, gy.p()); after_lib_call("accessor");
+		if (!r_y) { std::vector<Q> yv(mm); for (int i = 0; i < mm; i++) yv[i] = lib_to_q(gy.at(i)); Verdict fv = check_farkas(o->m, yv); probe("c02.getter_served");
+			if (!fv.ok && !(faulted && how == "exact" && so.status == QS_LP_INFEASIBLE)) violate("C02", "getter-cert:" + how + ":" + status_name(so.status) + (faulted ? ":faulted" : ""), "after a solve that ended " + status_name(so.status) + " QSget_infeas_array succeeds with multipliers that prove nothing: " + fv.why); } }
 	if (stop || o->broken) { compare_others("solve"); return; }
 
 	// C03: bounded liveness of the retry ladder / plain truth
